@@ -609,6 +609,19 @@ Proof.
   split.
   - destruct (step_dense_mdotm TFloat w 0%nat (XD 0) (XS 0) 2 2 2 H1 H2 H3 H4 H4 H5) as (_ & _ & E); try lia.
     { intros; exact HW. }
+    { reflexivity. }
     rewrite E. vm_compute. reflexivity.
   - vm_compute. intro E. discriminate.
 Qed.
+
+(* known finding F-MDOTM-RR (C08): r.MdotM(r, r) on a DENSE square matrix takes the column-buffered schedule
+   (r shares storage with b) although a is r too: the columns of the left factor already overwritten are read
+   for the later columns.  The model follows Go; a sparse receiver PANICS for r = a ("result and argument must be
+   different matrices"), so here the outcome does depend on the storage. *)
+Lemma mdotm_rr_refuted_lemma :
+  let w := run4 TFloat init4 [NewDM [1; 2; 3; 4] 2 2; NewSM [0; 1; 2; 3] [1; 2; 3; 4] 2 2] in
+  mabs w (XD 0) = mabs w (XS 0) /\
+  matmul (mabs w (XD 0)) (mabs w (XD 0)) 2 2 2 = [7; 10; 15; 22] /\
+  mabs (fst (step4 TFloat w (MdotM (XD 0) (XD 0) (XD 0)))) (XD 0) = [7; 22; 15; 46] /\
+  snd (step4 TFloat w (MdotM (XS 0) (XS 0) (XS 0))) = (K_PANIC, []).
+Proof. vm_compute. repeat split; reflexivity. Qed.
